@@ -60,13 +60,29 @@ def one_point(args):
             sets.append(dict(order="".join(order), hot=[f4(s.heat_flow) for s in hot], cold=[f4(s.heat_flow) for s in cold],
                              hotT=[[t2(s.t_supply), t2(s.t_target)] for s in hot], coldT=[[t2(s.t_supply), t2(s.t_target)] for s in cold]))
             ref = c
-        c = ref
+        # the same point on a RE-USED object: solved before for another refrigerant at another operating point, sets requested
+        other = "ammonia" if fluid != "ammonia" else "R134a"
+        c2 = SimpleHeatPumpCycle()
+        c2.solve(Te=Te - 7.0, Tc=Te + 21.0, dT_sh=2.0, dT_sc=1.0, eta_comp=0.8, refrigerant=other, ihx_gas_dt=0.0, Q_h_total=3.0 * Q)
+        c2.build_stream_collection(include_cond=True, include_evap=(idx % 2 == 0))
+        if idx % 3 == 0:
+            c2.solve(Te=Te, Tc=Tc, dT_sh=sh, dT_sc=sc, eta_comp=eta, refrigerant=other, ihx_gas_dt=0.0, Q_h_total=Q)
+        c2.solve(Te=Te, Tc=Tc, dT_sh=sh, dT_sc=sc, eta_comp=eta, refrigerant=fluid, ihx_gas_dt=0.0, Q_h_total=Q)
+        col = c2.build_stream_collection(include_cond=True, include_evap=True)
+        hot = [s for s in col._streams.values() if s.name.startswith("Condenser")]
+        cold = [s for s in col._streams.values() if s.name.startswith("Evaporator")]
         f4 = lambda x: int(round(float(x) / Q * 10000))
+        t2 = lambda x: int(round(float(x) * 100))
+        sets.append(dict(order="reused:b", hot=[f4(s.heat_flow) for s in hot], cold=[f4(s.heat_flow) for s in cold],
+                         hotT=[[t2(s.t_supply), t2(s.t_target)] for s in hot], coldT=[[t2(s.t_supply), t2(s.t_target)] for s in cold]))
+        reuse = dict(Qc=f4(c2.Q_cond), Qe=f4(c2.Q_evap), W=f4(c2.work), h=[int(round(float(x))) for x in c2.Hs],
+                     s=[int(round(float(x) * 1000)) for x in c2.Ss], p=[int(round(float(x) / 10)) for x in c2.Ps])
+        c = ref
         psE = PropsSI("P", "T", Te + 273.15, "Q", 1.0, fluid)
         psC = PropsSI("P", "T", Tc + 273.15, "Q", 0.0, fluid)
         ev = dict(id=eid, Qc=f4(c.Q_cond), Qe=f4(c.Q_evap), W=f4(c.work), COPh=int(round(c.COP_h * 10000)), COPr=int(round(c.COP_r * 10000)),
                   h=[int(round(float(x))) for x in c.Hs], s=[int(round(float(x) * 1000)) for x in c.Ss],
-                  p=[int(round(float(x) / 10)) for x in c.Ps], psatE=int(round(psE / 10)), psatC=int(round(psC / 10)), sets=sets)
+                  p=[int(round(float(x) / 10)) for x in c.Ps], psatE=int(round(psE / 10)), psatC=int(round(psC / 10)), sets=sets, reuse=reuse)
         if max(abs(v) for v in ev["h"] + ev["s"] + ev["p"]) > 2_000_000_000:
             return dict(id=eid, skipped="state value exceeds 32 bits")
         return ev
@@ -92,15 +108,18 @@ def grid(tier, rnd):
 def check(prop, tier, run: Run, replay_case=None):
     run.assumptions += ["refrigerant properties and saturation pressures come from CoolProp (the implementation's own source); the specification states the laws, it does not recompute properties",
                         "cycles without internal heat exchanger (ihx_gas_dt = 0); lifts of at least 10 K"]
-    r = _tlc(dict(HasTrace=False, MaxReq=5, EvapSharesMdot=False), invs=["C18_OrderIndependent"])
+    r = _tlc(dict(HasTrace=False, MaxReq=5, EvapSharesMdot=False, BackendCached=False), invs=["C18_OrderIndependent", "C18_BackendIsRequested"])
     run.add_tlc(r, "request-order machine")
     if r.violated:
         run.machinery_errors.append("spec/HeatPumpCycle.tla violates C18_OrderIndependent")
     if tier == "thorough":
-        r2 = _tlc(dict(HasTrace=False, MaxReq=5, EvapSharesMdot=True), invs=["C18_OrderIndependent"])
-        run.notes["mutant_models"] = {"EvapSharesMdot": r2.violated}
+        r2 = _tlc(dict(HasTrace=False, MaxReq=5, EvapSharesMdot=True, BackendCached=False), invs=["C18_OrderIndependent"])
+        r3 = _tlc(dict(HasTrace=False, MaxReq=5, EvapSharesMdot=False, BackendCached=True), invs=["C18_BackendIsRequested"])
+        run.notes["mutant_models"] = {"EvapSharesMdot": r2.violated, "BackendCached": r3.violated}
         if not r2.violated:
             run.machinery_errors.append("mutant model EvapSharesMdot not rejected")
+        if not r3.violated:
+            run.machinery_errors.append("mutant model BackendCached not rejected")
     rnd = random.Random(seed())
     pts = grid(tier, rnd) if replay_case is None else [tuple(replay_case["case"]["args"])]
     with Pool(16, initializer=_init) as pool:
@@ -114,7 +133,7 @@ def check(prop, tier, run: Run, replay_case=None):
     try:
         tf = tmp / "hp.json"
         tf.write_text(json.dumps(good))
-        res = _tlc(dict(HasTrace=True, MaxReq=1, EvapSharesMdot=False), post="TraceAccepted", env={"TRACE_FILE": str(tf)})
+        res = _tlc(dict(HasTrace=True, MaxReq=1, EvapSharesMdot=False, BackendCached=False), post="TraceAccepted", env={"TRACE_FILE": str(tf)})
     finally:
         shutil.rmtree(tmp, ignore_errors=True)
     run.add_tlc(res, "trace")
